@@ -87,9 +87,9 @@ pub async fn apply(nexus: &CognitiveNexus, op: &str) -> String {
 // ----------------------------------------------------------------------------------------------
 
 #[derive(Default, Clone)]
-struct RGrant { space: String, gp: String, gg: String, actions: Vec<String>, from: u64, until: u64, revoked: bool }
+struct RGrant { space: String, gp: String, gg: String, actions: Vec<String>, from: u64, until: u64, revoked: bool, scope: String, may_delegate: bool }
 #[derive(Default, Clone)]
-struct RDeleg { space: String, delegator: String, delegate: String, actions: Vec<String>, from: u64, until: u64, revoked: bool }
+struct RDeleg { space: String, delegator: String, delegate: String, actions: Vec<String>, from: u64, until: u64, revoked: bool, scope: String, parent: String }
 #[derive(Default, Clone)]
 struct RSpace { owner: String, owners: Vec<String>, status: String, policy: String }
 #[derive(Default, Clone)]
@@ -123,11 +123,11 @@ impl Ref {
             ["principal", id] => { self.principals.entry(id.to_string()).or_insert("active".into()); }
             ["pstatus", id, st] => { if let Some(s) = self.principals.get_mut(*id) { *s = st.to_string(); } }
             ["group", gid, ms] => { self.groups.insert(gid.to_string(), csv(ms)); }
-            ["grant", sp, gp, gg, acts, _sc, co, _cs, _da] => self.grants.push(RGrant { space: sp.to_string(), gp: str_of(gp), gg: str_of(gg), actions: csv(acts),
-                from: kv(co, "from").parse().unwrap_or(0), until: kv(co, "until").parse().unwrap_or(0), revoked: false }),
+            ["grant", sp, gp, gg, acts, sc, co, _cs, da] => self.grants.push(RGrant { space: sp.to_string(), gp: str_of(gp), gg: str_of(gg), actions: csv(acts),
+                from: kv(co, "from").parse().unwrap_or(0), until: kv(co, "until").parse().unwrap_or(0), revoked: false, scope: sc.to_string(), may_delegate: *da == "1" }),
             ["revoke_grant", row] => { if let Some(g) = row.parse::<usize>().ok().and_then(|n| self.grants.get_mut(n.wrapping_sub(1))) { g.revoked = true; } }
-            ["deleg", sp, dor, dee, acts, _sc, co, _cs, _par, _mr] => self.delegs.push(RDeleg { space: sp.to_string(), delegator: dor.to_string(), delegate: dee.to_string(), actions: csv(acts),
-                from: kv(co, "from").parse().unwrap_or(0), until: kv(co, "until").parse().unwrap_or(0), revoked: false }),
+            ["deleg", sp, dor, dee, acts, sc, co, _cs, par, _mr] => self.delegs.push(RDeleg { space: sp.to_string(), delegator: dor.to_string(), delegate: dee.to_string(), actions: csv(acts),
+                from: kv(co, "from").parse().unwrap_or(0), until: kv(co, "until").parse().unwrap_or(0), revoked: false, scope: sc.to_string(), parent: str_of(par) }),
             ["revoke_deleg", row] => { if let Some(d) = row.parse::<usize>().ok().and_then(|n| self.delegs.get_mut(n.wrapping_sub(1))) { d.revoked = true; } }
             ["policy", pid, _n, rest @ ..] => {
                 let sts = rest.chunks(8).filter(|c| c.len() == 8).map(|c| RStmt {
@@ -192,7 +192,20 @@ impl Ref {
                         if !Self::in_window(d.from, d.until) { out.push(("authz:expired-delegation-used".into(), u.clone(), "outside its validity window".into())); }
                         if d.delegate != *p || d.space != *sp { out.push(("authz:foreign-delegation-used".into(), u.clone(), "the Delegation names another delegate or Space".into())); }
                         if !d.actions.iter().any(|a| a == perm) { out.push(("authz:delegation-without-action-used".into(), u.clone(), format!("the Delegation does not list {perm}"))); }
-                        if self.principals.get(&d.delegator).map(|s| s.as_str()) != Some("active") { out.push(("authz:delegation-of-inactive-delegator-used".into(), u.clone(), "the delegator holds nothing".into())); }
+                        if self.principals.get(&d.delegator).map(|s| s.as_str()) != Some("active") {
+                            let key = if d.parent.is_empty() { "authz:delegation-of-inactive-delegator-used" } else { "authz:redelegation-by-inactive-intermediate-used" };
+                            out.push((key.into(), u.clone(), "the Principal that made this Delegation is not active (or not registered): it holds nothing to pass on".into()));
+                        }
+                        // attenuation (direct Delegations): only ownership or a live, delegable Grant of the delegator that lists the
+                        // permission and whose scope lists contain the Delegation's can be what is conferred
+                        if d.parent.is_empty() {
+                            let dor_owner = space.owner == d.delegator || space.owners.iter().any(|o| *o == d.delegator);
+                            let narrows = |parent: &str, child: &str| -> bool { let (p, c) = (csv(parent), csv(child)); p.is_empty() || (!c.is_empty() && c.iter().all(|x| p.contains(x))) };
+                            let holds = self.grants.iter().any(|g| !g.revoked && g.space == *sp && g.may_delegate && g.actions.iter().any(|a| a == perm)
+                                && (g.gp == d.delegator || (!g.gg.is_empty() && self.groups.get(&g.gg).is_some_and(|ms| ms.iter().any(|m| *m == d.delegator))))
+                                && ["k", "t", "c", "e"].iter().all(|k| narrows(kv(&g.scope, k), kv(&d.scope, k))));
+                            if !dor_owner && !holds { out.push(("authz:delegation-wider-than-its-delegator".into(), u.clone(), "the delegator neither owns the Space nor holds a delegable Grant that lists the permission and contains the Delegation's scope".into())); }
+                        }
                     }
                 }
             } else if let Some(o) = u.strip_prefix("owner:") {
@@ -285,7 +298,56 @@ fn gen_query(r: &mut Rng, ndeleg: usize, nreg: usize) -> String {
         r.pick(&["declared", "declared", "session_bound", "approved", "-"]), r.pick(&PERMS))
 }
 
+const DEFAULT_SCOPE: &str = "k=-;t=-;c=-;e=-";
+const DEFAULT_COND: &str = "p=-;pa=-;as=-;from=0;until=0";
+
+/// A history built around attenuation: a delegator holding one or two Grants, Delegations (and re-delegations) whose
+/// bounds are the Grant's own, the default (= unbounded), or something else, and questions by the delegates inside and
+/// outside every bound; then the Grant is revoked and the questions are asked again.
+fn gen_delegation_case(r: &mut Rng) -> Vec<String> {
+    let mut ops = vec!["mode authz".to_string()];
+    for p in &PRINCIPALS[..4] { ops.push(format!("principal {p}")); }
+    let (d, e, f) = (PRINCIPALS[0], PRINCIPALS[1], PRINCIPALS[2]);
+    if r.chance(1, 4) { ops.push(format!("group {} {d}", GROUPS[0])); }
+    let ngr = 1 + r.usize(2);
+    let mut triples = vec![];
+    for _ in 0..ngr {
+        let sc = if r.chance(2, 3) { gen_scope(r) } else { DEFAULT_SCOPE.to_string() };
+        let co = if r.chance(1, 3) { gen_cond(r) } else { DEFAULT_COND.to_string() };
+        let cs = if r.chance(1, 3) { gen_cons(r) } else { format!("f=-;mr=-;mi=-;mc=-;x={}", r.below(2)) };
+        let (gp, gg) = if ops.iter().any(|o| o.starts_with("group")) && r.chance(1, 2) { ("-".to_string(), GROUPS[0].to_string()) } else { (d.to_string(), "-".to_string()) };
+        ops.push(format!("grant {SPACE} {gp} {gg} read,search,export {sc} {co} {cs} {}", r.chance(5, 6) as u8));
+        triples.push((sc, co, cs));
+    }
+    let mut ndeleg = 0;
+    let pick = |r: &mut Rng, own: &str, default: &str, other: String| -> String { match r.below(4) { 0 | 1 => own.to_string(), 2 => default.to_string(), _ => other } };
+    for _ in 0..(1 + r.usize(3)) {
+        let (gs, gc, gk) = triples[r.usize(triples.len())].clone();
+        let o1 = gen_scope(r); let sc = pick(r, &gs, DEFAULT_SCOPE, o1);
+        let o2 = gen_cond(r); let co = pick(r, &gc, DEFAULT_COND, o2);
+        let o3 = gen_cons(r); let cs = pick(r, &gk, "f=-;mr=-;mi=-;mc=-;x=0", o3);
+        let (dor, dee, parent) = if ndeleg > 0 && r.chance(1, 3) { (e, f, format!("kip:delegation:{}", 1 + r.usize(ndeleg))) } else { (d, if r.chance(3, 4) { e } else { f }, "-".to_string()) };
+        ops.push(format!("deleg {SPACE} {dor} {dee} {} {sc} {co} {cs} {parent} {}", r.pick(&["read", "read,search", "read,export,purge", "search"]), r.chance(2, 3) as u8));
+        ndeleg += 1;
+    }
+    let ask = |r: &mut Rng, ops: &mut Vec<String>| {
+        for _ in 0..10 {
+            let who = *r.pick(&[e, e, f, d]);
+            let (k, t, c, el) = if r.chance(1, 5) { ("-", "-", "-", "-") } else {
+                (*r.pick(&["concept", "proposition", "evidence"]), *r.pick(&["T1", "T2", "-"]), *r.pick(&["-", "public", "internal", "secret", "weird"]), *r.pick(&["-", "C-1", "C-2", "P-1"])) };
+            let chain = if r.chance(1, 6) { format!("kip:delegation:{}", 1 + r.usize(ndeleg)) } else { "-".to_string() };
+            ops.push(format!("auth {SPACE} {who} {} {} {} {chain} {} {k} {t} {c} {el}", r.pick(&["standard", "strong"]), r.pick(&["-", "research", "ops"]),
+                r.pick(&["declared", "session_bound", "approved"]), r.pick(&["read", "read", "search", "export"])));
+        }
+    };
+    ask(r, &mut ops);
+    match r.below(3) { 0 => ops.push("revoke_grant 1".into()), 1 => ops.push(format!("pstatus {d} suspended")), _ => ops.push("revoke_deleg 1".into()) }
+    ask(r, &mut ops);
+    ops
+}
+
 pub fn gen_case(r: &mut Rng) -> Vec<String> {
+    if r.chance(1, 4) { return gen_delegation_case(r); }
     let mut ops = vec!["mode authz".to_string()];
     let nreg = 3 + r.usize(2);
     for p in &PRINCIPALS[..nreg] { ops.push(format!("principal {p}")); }
